@@ -3,6 +3,7 @@ package c08
 
 import (
 	"bytes"
+	"crypto/tls"
 	"encoding/hex"
 	"fmt"
 	"io"
@@ -83,6 +84,8 @@ var workloads = []workload{
 	{"proxy-random_choose", 'K', 0, 1},
 	{"proxy-two-peers", 'L', 0, 1},
 	{"openvpn-auth-echo", 0, 0, 0},
+	{"tls-sni-a-echo", 1, 0, 0},       // TLS client hello with SNI a.example.com: terminated, echoed
+	{"tls-sni-b-take1-echo", 2, 1, 0}, // SNI b.example.com: terminated, first byte consumed, rest echoed
 }
 
 var ovpnDigests = []string{"SHA-1", "SHA-256", "SHA-512", "MD5"}
@@ -117,7 +120,15 @@ func buildServer(t hx.TB) (*layer4.Server, func()) {
 		rx.H("proxy", "upstreams", []map[string]any{{"dial": []string{echo2.Addr().String(), sink.Addr().String()}}})}})
 	routes = append(routes, rx.R{Match: []map[string]any{rx.M("openvpn", map[string]any{"modes": []string{"auth"}, "group_key": hex.EncodeToString(mx.OVPNKey.KeyBytes), "ignore_timestamp": true})},
 		Handle: []map[string]any{rx.H("echo")}})
-	srv, err := rx.Server(rx.BareCtx(), routes, 5*time.Second)
+	// two routes told apart only by the server name in the ClientHello (one shared tls matcher instance each)
+	routes = append(routes,
+		rx.R{Match: []map[string]any{rx.M("tls", map[string]any{"sni": []string{"a.example.com"}})}, Handle: []map[string]any{rx.H("tls"), rx.H("echo")}},
+		rx.R{Match: []map[string]any{rx.M("tls", map[string]any{"sni": []string{"b.example.com"}})}, Handle: []map[string]any{rx.H("tls"), rx.H("verif_take", "id", "TLSB", "k", 1), rx.H("echo")}})
+	ctx, err := rx.TLSCtx()
+	if err != nil {
+		t.Fatalf("tls ctx: %v", err)
+	}
+	srv, err := rx.Server(ctx, routes, 5*time.Second)
 	if err != nil {
 		t.Fatalf("provision: %v", err)
 	}
@@ -151,7 +162,9 @@ func (cp connPlan) stream() []byte {
 			s[i] = '.'
 		}
 	}
-	s[0] = w.first
+	if w.first > 2 {
+		s[0] = w.first
+	}
 	return s
 }
 
@@ -193,6 +206,23 @@ func runBatch(t hx.TB, srv *layer4.Server, ln net.Listener, plans []connPlan) {
 			defer c.Close()
 			results[i].from = time.Now()
 			_ = c.SetDeadline(time.Now().Add(20 * time.Second))
+			if w := workloads[cp.W]; w.first == 1 || w.first == 2 {
+				// a TLS client: the plaintext stream goes through the handshake with the route's server name
+				tc := tls.Client(c, rx.ClientTLS(map[byte]string{1: "a.example.com", 2: "b.example.com"}[w.first], nil))
+				if err := tc.Handshake(); err != nil {
+					results[i].err = "handshake: " + err.Error()
+					results[i].to = time.Now()
+					return
+				}
+				var rd sync.WaitGroup
+				rd.Add(1)
+				go func() { defer rd.Done(); results[i].got, _ = io.ReadAll(tc) }()
+				_, _ = tc.Write(cp.stream())
+				_ = tc.CloseWrite()
+				rd.Wait()
+				results[i].to = time.Now()
+				return
+			}
 			var rd sync.WaitGroup
 			rd.Add(1)
 			go func() {
